@@ -537,9 +537,20 @@ type FuncContract struct {
 	Props    []string // property ids this contract serves
 	Diag     bool     // explicit panics allowed (default true)
 	NoSafety bool // the run-time-error obligations of this function are not part of this claim (they belong to the C18 sweep)
+	CallVerbs []*CallVerbClause
 	CallArgs []*CallArgClause // callarg <callee>@<k> <i> <expr>: the i-th argument (0-based) of the k-th call to callee equals expr
 	GhostSets [][2]string // ghostset <name> <expr>: at every exit the ghost flag <name> of object <expr> becomes 1
 	Line     string
+}
+
+// CallVerbClause: `callverb <callee> "<context with one %s>" <expr>`: in every call of callee whose format literal
+// contains the context (all verbs written as %s), the argument consumed by that verb equals expr. At least one call
+// must match. Unlike callarg this ties the value to its place in the emitted text, not to an argument position.
+type CallVerbClause struct {
+	Callee  string
+	Context string
+	Text    string
+	Expr    SNode
 }
 
 type CallArgClause struct {
@@ -682,6 +693,29 @@ func parseContractText(pkg, fname, text string) (*ContractFile, error) {
 				return nil, fmt.Errorf("%s: bad callarg clause", where)
 			}
 			cur.CallArgs = append(cur.CallArgs, &CallArgClause{Callee: tgt[:at], Ord: ord, Idx: idx, Text: expr, Expr: e})
+		case "callverb":
+			if err := flush(); err != nil {
+				return nil, err
+			}
+			tgt, rest2 := splitWord(rest)
+			rest2 = strings.TrimSpace(rest2)
+			if !strings.HasPrefix(rest2, "\"") {
+				return nil, fmt.Errorf("%s: callverb needs a quoted context", where)
+			}
+			end := 1
+			for end < len(rest2) && (rest2[end] != '"' || rest2[end-1] == '\\') {
+				end++
+			}
+			if end >= len(rest2) {
+				return nil, fmt.Errorf("%s: callverb: unterminated context", where)
+			}
+			ctxs, errq := strconv.Unquote(rest2[:end+1])
+			expr := strings.TrimSpace(rest2[end+1:])
+			e, erre := parseSpecExpr(expr)
+			if errq != nil || erre != nil || strings.Count(ctxs, "%s") != 1 {
+				return nil, fmt.Errorf("%s: bad callverb clause (the context must contain exactly one %%s)", where)
+			}
+			cur.CallVerbs = append(cur.CallVerbs, &CallVerbClause{Callee: tgt, Context: ctxs, Text: expr, Expr: e})
 		case "ghostset":
 			if err := flush(); err != nil {
 				return nil, err
